@@ -566,6 +566,14 @@ def run(ctx):
     # C2. the join planner takes the database qualifier off (resolve_table) and process_table puts it back for the fetch: the two steps composed are the identity
     for label, ok, msg, line in join_fetch_table(ctx):
         ctx.ob('C10.join-fetch-table', label, ok, msg, file=PJ, line=line, witness='select * from int1.int1.orders a join int2.u b on a.id = b.id')
+    # C3. a query (or join) sent as a whole to one integration mentions no table that belongs elsewhere: the decision table of both gates (C11's, re-run)
+    from . import C11
+    ng = 0
+    for cons, ok, msg, file_, line in C11.gate_rows(ctx):
+        ng += 1
+        ctx.ob('C10.whole-query-gate', cons, ok, msg, file=file_, line=line, witness='select * from int1.a join int1.b on a.id = b.id where a.x in (select y from int2.c)')
+    ctx.setcount('gate_rows', ng)
+    ctx.floor('gate_rows', 600)
     # D. qualifier strip: truth table of prepare_integration_select ------------------------------------------------------------------------
     table = rewrite_table(ctx)
     ctx.setcount('rewrite_rows', len(table))
